@@ -29,8 +29,8 @@ impl Check for C05 {
     }
     fn total_cases(&self, tier: Tier) -> u64 {
         match tier {
-            Tier::Quick => 16000,
-            Tier::Thorough => 400_000,
+            Tier::Quick => 60000,
+            Tier::Thorough => 4_000_000,
         }
     }
     fn run_case(&self, ctx: &Ctx, idx: u64, out: &mut Outcome) {
